@@ -1257,7 +1257,12 @@ pub fn tensor_elementwise_one(dims: &[usize]) -> Result<(), String> {
     let mut t = nest(dims, &va); t.div_scalar_inplace(3.0); check("div_scalar_inplace", &t, (0..n).map(|k| a[k] / 3.0).collect())?;
     let t = nest(dims, &va).clamp(-0.5, 0.75); check("clamp", &t, (0..n).map(|k| a[k].clamp(-0.5, 0.75)).collect())?;
     let mut t = nest(dims, &va); let (o1, o2) = (nest(dims, &vb), nest(dims, &vc)); t.mean_inplace(&vec![&o1, &o2]);
-    check("mean_inplace", &t, (0..n).map(|k| (a[k] + (b[k] + c[k])) / 3.0).collect())?;
+    // (the mean's summation order is not fixed by the property: compared up to rounding)
+    { let want: Vec<f32> = (0..n).map(|k| (a[k] + (b[k] + c[k])) / 3.0).collect();
+      if t.shape != nest(dims, &va).shape { return Err("mean_inplace: the shape field changed".into()); }
+      match cells(&t, dims) { None => return Err("mean_inplace: the nesting lengths changed".into()),
+          Some(g) => if !close_all(&g, &want) { let k = (0..n).find(|&k| !close(g[k], want[k])).unwrap_or(0);
+              return Err(format!("mean_inplace: cell {} (row-major) is {} but the mean of the operand cells is {}", k, g[k], want[k])); } } }
     // operands whose shapes differ are refused
     let mut other = dims.to_vec(); let last = other.len() - 1; other[last] += 1;
     for op in 0..4 {
@@ -1287,8 +1292,9 @@ pub fn activation_elementwise_one(dims: &[usize]) -> Result<(), String> {
             if got.shape != input.shape { return Err(format!("{}::{}: the output shape differs from the input shape", name, dir)); }
             match cells(&got, dims) {
                 None => return Err(format!("{}::{}: the nesting lengths of the output differ from the input's", name, dir)),
-                Some(g) => if !same_bits(&g, &want) {
-                    let k = (0..n).find(|&k| g[k].to_bits() != want[k].to_bits()).unwrap_or(0);
+                // exact for the piecewise-linear activations; up to rounding for the transcendental ones (an algebraically equal formula may round differently)
+                Some(g) => if !(if *name == "Sigmoid" || *name == "Tanh" { close_all(&g, &want) } else { same_bits(&g, &want) }) {
+                    let k = (0..n).find(|&k| !close(g[k], want[k])).or_else(|| (0..n).find(|&k| g[k].to_bits() != want[k].to_bits())).unwrap_or(0);
                     return Err(format!("{}::{}: cell {} (row-major) is {} for input {}, the definition gives {}", name, dir, k, g[k], x[k], want[k])); },
             }
         }
